@@ -100,7 +100,17 @@ def adapter_dispatch(repo: Repo, rep):
                 tested |= {norm(x) for x in (t.elts if isinstance(t, ast.Tuple) else [t])}
             elif isinstance(e, ast.Compare) and len(e.ops) == 1 and isinstance(e.ops[0], (ast.Is, ast.Eq)) and norm(e.left).startswith("type("):
                 tested.add(norm(e.comparators[0]))
-        if tested == {product}:
+        exact = any(cn.kind == "cond" and lab == "T" and isinstance(cn.ast, ast.Compare) and norm(cn.ast.left).startswith("type(") for cn, lab in dominating_edges(cfg, r))
+        if tested == {product} and exact and product in ("list", "dict"):
+            rep.violation(
+                "R-ADAPTER-DISPATCH",
+                f,
+                r.ast,
+                f"{v.id} is selected by the exact type only: a subclass of {product} (which has no adapter of its own, unlike namedtuples for tuple) falls through to ValueAdapter and is rendered by the builtin "
+                f"`{product}.__repr__`, which by-passes the code generation of its elements - nested sets come out unsorted, nested values without a code repr are written as invalid code",
+                construct=f"{v.id}:exact-type",
+            )
+        elif tested == {product}:
             rep.ok("R-ADAPTER-DISPATCH", f, r.ast, f"{v.id} only for `{product}` values (what its map() builds)")
         else:
             rep.violation(
